@@ -354,8 +354,8 @@ func FamilyBoot(tier string) []*Scenario {
 						continue
 					}
 					for _, norec := range []bool{false, true} {
-						if norec && age != c.ages[0] {
-							continue
+						if norec && age == c.ages[1] {
+							continue // recovery off: a live age and a stale age ("nothing is resumed or modified" either way)
 						}
 						var plans []PlanSpec
 						for range prefix {
